@@ -60,7 +60,12 @@ def layer_binding(ctx: Ctx, f: Func, c: ast.Call) -> tuple[str | None, str | Non
         par = mod.parents.get(id(n))
         if isinstance(par, (ast.For, ast.AsyncFor)) and isinstance(par.target, ast.Tuple) and len(par.target.elts) == 2:
             a, b = par.target.elts
-            if isinstance(b, ast.Name) and b.id == lv and '_layers' in norm(par.iter) and '.values()' in norm(par.iter):
+            it_txt = norm(par.iter)
+            if isinstance(par.iter, ast.Name):
+                ds = p.local_defs(f, par.iter.id)
+                if len(ds) == 1:
+                    it_txt = norm(ds[0])     # `ordered = list(reversed(list(self._layers.values())))`
+            if isinstance(b, ast.Name) and b.id == lv and '_layers' in it_txt and '.values()' in it_txt:
                 return lv, (a.id if isinstance(a, ast.Name) else None)
         n = par
     # tuple assignment from self._layers[...]
